@@ -39,7 +39,6 @@ LEVEL_TEXT = ("Sampled interleavings of up to ~8 concurrent streams; every strea
               "through unique payload tags and flow metadata and checked against the pairing rules.")
 LEVEL_NOTE = "trusts lib/driver.py and the TCPLayer relay (checked separately by C29)"
 QUICK_N, THOROUGH_N = 40_000, 2_000_000
-BUDGET_S = (150, 3600)
 
 C, S = 0, 1
 NAMES = ("client", "server")
@@ -168,17 +167,25 @@ def check_case(case, ctx):
         if fin:
             p.term[side] = "fin"
         d.feed(qe.QuicStreamDataReceived(conns[side], sid, data, fin))
+        if fin:
+            after_close(p)
 
     def closing_allowed(p):
+        """a second closing event for a stream is only generated once the first one has certainly been processed
+        (no hook of that stream pending since), see ASSUMPTIONS"""
+        return not p.closes_in_hold
+
+    def after_close(p):
         if p in held_pairs():
-            if p.closes_in_hold >= 1:
-                return False
-            p.closes_in_hold += 1
-        return True
+            p.closes_in_hold = 1
 
     for op in case["ops"]:
         if d.crashed is not None:
             break
+        hp = held_pairs()
+        for p in pairs:
+            if p.closes_in_hold and p not in hp:
+                p.closes_in_hold = 0
         k = op[0]
         if k in ("new", "newreset"):
             side, uni, skip = op[1], bool(op[2]), op[3]
@@ -200,6 +207,7 @@ def check_case(case, ctx):
                 if d.held:
                     hold_events[0] += 1
                 d.feed(qe.QuicStreamReset(conns[side], sid, op[4]))
+                after_close(p)
         elif k in ("data", "reset", "stop"):
             side = op[1]
             if k == "stop":
@@ -227,6 +235,7 @@ def check_case(case, ctx):
                 if d.held:
                     hold_events[0] += 1
                 d.feed(qe.QuicStreamReset(conns[side], sid, op[3]))
+                after_close(p)
             else:
                 stop_hazard[0] = True
                 d.feed(qe.QuicStreamStopSending(conns[side], sid, op[3]))
@@ -240,9 +249,6 @@ def check_case(case, ctx):
         elif k == "rel":
             if d.held:
                 cmd = d.held[op[1] % len(d.held)]
-                p = pair_of_flow(cmd.flow)
-                if p is not None:
-                    p.closes_in_hold = 0
                 d.release(cmd)
         elif k == "connclose":
             side = op[1]
